@@ -1,7 +1,7 @@
 SPECIFICATION Spec
 CONSTANTS
   MaxKeys = 4
-  MaxSteps = 7
+  MaxSteps = 8
   CutClasses = {"empty", "comment", "certhdr", "certbody", "between", "keyhdr", "keybody", "nonl"}
   DamageClasses = {"comment", "certmarker", "certbody", "keymarker", "keybody", "armour"}
   EmitEdges = TRUE
